@@ -829,8 +829,9 @@ class CFG:
         if isinstance(other, regular_expression.Regex):
             other = other.to_epsilon_nfa().to_deterministic()
         elif isinstance(other, FiniteAutomaton):
-            if not other.is_deterministic():
-                other = other.to_deterministic()
+            # Even when it is deterministic, an NFA does not have the
+            # interface of a DFA
+            other = other.to_deterministic()
         else:
             raise NotImplementedError
         if other.is_empty():
